@@ -16,16 +16,13 @@ Section Frag.
   Variable C : cmodel.
   Variable objcls : cls -> bool.     (* classes whose instances are objects of the world (not int / str) *)
 
-  Definition comparable (t : option cls) (d : cls) : bool :=
-    match t with None => true | Some T => sub C T d || sub C d T end.
-
   Fixpoint fok_pat (oc : cls) (p : path) (a : nat) (q : pat) {struct q} : bool :=
     match q with
     | Pat t l =>
         let d := dflt (f_type C oc a) in
         let kw := negb (is_anil l) in
         let pv := nested_var C oc p a t kw in
-        is_some (f_type C oc a) && objcls d && comparable t d
+        is_some (f_type C oc a) && objcls d
         && (if f_iter C oc a then type_filter C oc a t || head_ok (tr_alist C d pv l) else true)
         && fok_alist d pv l
     end
@@ -43,7 +40,7 @@ Section Frag.
     end.
 
   (* F11: the pattern is well typed against the class model, keyword names are distinct, no nested match on a
-     collection that emits no condition, nested types comparable with the declared type *)
+     collection that emits no condition *)
   Definition F11 (T : cls) (l : alist) : bool := fok_alist T PRoot l.
 End Frag.
 
